@@ -4,6 +4,11 @@
 //! CMaps that map codes of two or three different lengths (prefix-free code spaces, so a byte string has one reading),
 //! and the code strings are every sequence of <= 3 mapped codes (any order, repetition, any succession of lengths),
 //! not only the ascending enumeration of the mapped codes.
+//! The contents of an array target are a dimension of their own: besides the two fixed arrays of the pool, the family holds
+//! every array of 1..4 entries over an alphabet of six entry shapes stated relative to the entry's offset i in the range
+//! (see `arr_entry`): the entries may or may not look like what an incrementing range would have produced, entry by entry,
+//! so the family holds the arrays on both sides of (and every mixture across) the border between "array target" and
+//! "incrementing target" that the property keeps apart; alone and overlapped by / overlapping one other definition.
 #![allow(dead_code)]
 use crate::common::*;
 use crate::gen::*;
@@ -43,6 +48,64 @@ fn pool_at(b: u32) -> Vec<Def> {
         Def::RangeStr(b + 3, b + 5, vec![0x0061 + 3]),               // equal to a slice of the first range (may coalesce)
         Def::Char(b + 5, vec![0x00E9]),
     ]
+}
+
+/// the number of entry shapes of `arr_entry`
+const SHAPES: usize = 6;
+/// entry `i` of an array target, by shape, relative to the unit `u` the array starts from. The shapes say how the entry
+/// relates to the entry an INCREMENTING range starting at <u> would define for the same offset (u + i):
+///  0: <u+i>            that very unit, alone
+///  1: <u+i 0301>       that unit followed by a combining mark (several units, the FIRST continues the run)
+///  2: <0066 u+i>       several units, the LAST continues the run (what an incrementing multi-unit target would give)
+///  3: <u>              the start unit again (no increment)
+///  4: <2603>           an unrelated unit
+///  5: <D835 DC00+i>    a surrogate pair whose low surrogate continues a run
+fn arr_entry(shape: usize, u: u16, i: usize) -> Vec<u16> {
+    let r = u.wrapping_add(i as u16);
+    match shape { 0 => vec![r], 1 => vec![r, 0x0301], 2 => vec![0x0066, r], 3 => vec![u], 4 => vec![0x2603], _ => vec![0xD835, 0xDC00 + i as u16] }
+}
+
+/// every array of 1..=n_max entries over the SHAPES entry shapes (shortest first; SHAPES + SHAPES^2 + .. arrays)
+fn arrays(n_max: usize, u: u16) -> Vec<Vec<Vec<u16>>> {
+    let mut out = vec![];
+    for n in 1..=n_max {
+        let mut idx = vec![0usize; n];
+        loop {
+            out.push(idx.iter().enumerate().map(|(i, &s)| arr_entry(s, u, i)).collect());
+            let (mut p, mut wrapped) = (n, true);
+            while p > 0 { p -= 1; idx[p] += 1; if idx[p] < SHAPES { wrapped = false; break; } idx[p] = 0; }
+            if wrapped { break; }
+        }
+    }
+    out
+}
+
+/// the array-target range that holds `arr`: one entry per code, codes b+1 .. b+n (inside the codes b .. b+5 of the pool)
+fn arr_def(b: u32, arr: &[Vec<u16>]) -> Def { Def::RangeArr(b + 1, b + arr.len() as u32, arr.to_vec()) }
+
+/// the definitions of that code length that cover the code (indices, in definition order): the last one is the one that counts
+fn covering(defs: &[Def], lens: &[usize], code_len: usize, code: u32) -> Vec<usize> {
+    defs.iter().zip(lens).enumerate().filter(|(_, (d, l))| **l == code_len && match d {
+        Def::Char(c, _) => *c == code,
+        Def::RangeStr(lo, hi, _) => *lo <= code && code <= *hi,
+        Def::RangeArr(lo, hi, a) => *lo <= code && code <= *hi && ((code - lo) as usize) < a.len(),
+    }).map(|(k, _)| k).collect()
+}
+
+/// (obligation, explanation) for a code that decodes to something else than the reference: which clause of the property
+/// gives the expected text. A code covered by one definition only is charged to the clause of that definition's kind
+/// (bfchar / incrementing range / array target), a code covered by several to "the last definition wins".
+fn clause(defs: &[Def], lens: &[usize], code_len: usize, code: u32) -> (&'static str, String) {
+    let cov = covering(defs, lens, code_len, code);
+    let Some(&k) = cov.last() else { return ("code-maps-to-last-definition", "no definition covers the code".into()) };
+    let what = match &defs[k] {
+        Def::Char(..) => format!("definition #{} (bfchar)", k + 1),
+        Def::RangeStr(lo, _, u) => format!("definition #{} (incrementing range: offset {} added to the last unit of <{}>)", k + 1, code - lo, hexu(u)),
+        Def::RangeArr(lo, _, a) => format!("definition #{} (array target of {} entries: the entry at offset {} is <{}>)", k + 1, a.len(), code - lo, hexu(&a[(code - lo) as usize])),
+    };
+    if cov.len() > 1 { return ("code-maps-to-last-definition", format!("covered by definitions {}, the last one counts: {}", cov.iter().map(|k| format!("#{}", k + 1)).collect::<Vec<_>>().join(", "), what)); }
+    let o = match &defs[k] { Def::Char(..) => "bfchar-maps-to-its-target", Def::RangeStr(..) => "range-adds-offset-to-last-unit", Def::RangeArr(..) => "array-target-indexed-by-offset" };
+    (o, format!("covered by {} only", what))
 }
 
 /// reference semantics: the last definition of that code length that covers the code
@@ -155,7 +218,10 @@ pub fn check(defs: &[Def], lens: &[usize], sectioning: u32, style: usize, max_se
         };
         for m in &mapped {
             let (want, got) = decode(&[m])?;
-            if got != want { return Err(("code-maps-to-last-definition".into(), format!("code <{}> should decode to {:?} (last covering definition), decoded {:?}; definitions {}", hexc(m.code, m.len), want, got, show_defs(defs, lens)))); }
+            if got != want {
+                let (o, why) = clause(defs, lens, m.len, m.code);
+                return Err((o.into(), format!("code <{}> should decode to {:?} ({}), decoded {:?}; definitions {}", hexc(m.code, m.len), want, why, got, show_defs(defs, lens))));
+            }
         }
         let all: Vec<&Mapped> = mapped.iter().collect();
         let (want, got) = decode(&all)?;
@@ -204,12 +270,19 @@ fn defs_from(v: &Value) -> (Vec<Def>, Vec<usize>, u32, usize, usize) {
 }
 
 const MAX_SEQ: usize = 3;
+/// array targets: the units an array starts from (<00FE>: the run crosses the byte boundary <00FF>/<0100>), the longest array
+/// taken alone and the longest array taken together with another definition
+const ARR_UNITS: [u16; 2] = [0x0041, 0x00FE];
+const ARR_MAX_ALONE: usize = 4;
+const ARR_MAX_CTX: usize = 3;
 /// the definitions used for the three-definition CMaps with mixed code lengths in the quick tier: bfchar surrogate pair,
 /// whole single-unit range, multi-unit range, array range with multi-unit / astral elements, bfchar single unit
 const QUICK_MIXED: [usize; 5] = [1, 3, 5, 8, 11];
 
 pub fn run(thorough: bool) -> Report {
-    let bound = format!("CMaps: (a) one code length in {{1, 2, 3, 4}} (3- and 4-byte codes with non-zero leading bytes, code space = all codes of that length) x every sequence of 1..3 definitions (with repetition, order significant) over a pool of 12 (bfchar single / surrogate pair / two units; bfrange with single unit, multi-unit, astral and array targets; overlapping, nested, adjacent and coalescable ranges); (b) mixed code lengths: every sequence of 2 definitions over the pool of 12 and every sequence of 3 definitions over {}, each x every assignment of a code length in {{1, 2, 3, 4}} to each definition that uses at least two lengths (12 resp. 60 assignments; prefix-free code spaces <10>..<1F>, <0110>..<011F>, <810110>..<81011F>, <8E810110>..<8E81011F>, one codespacerange per length used, the tail of a longer code is a shorter mapped code; a section may hold codes of several lengths); all x every sectioning of the sequence x 2 white-space/EOL styles. Code strings per CMap: every mapped code alone, all mapped codes in one string, and every sequence of 2 and of 3 mapped codes (with repetition, every order, hence every succession of code lengths: equal, increasing, decreasing, long-short-long, ...)", if thorough { "the whole pool of 12" } else { "5 of the pool (bfchar single, bfchar surrogate pair, whole single-unit range, multi-unit range, array range; the thorough tier takes the whole pool)" });
+    let bound = format!("CMaps: (a) one code length in {{1, 2, 3, 4}} (3- and 4-byte codes with non-zero leading bytes, code space = all codes of that length) x every sequence of 1..3 definitions (with repetition, order significant) over a pool of 12 (bfchar single / surrogate pair / two units; bfrange with single unit, multi-unit, astral and array targets; overlapping, nested, adjacent and coalescable ranges); (b) mixed code lengths: every sequence of 2 definitions over the pool of 12 and every sequence of 3 definitions over {}, each x every assignment of a code length in {{1, 2, 3, 4}} to each definition that uses at least two lengths (12 resp. 60 assignments; prefix-free code spaces <10>..<1F>, <0110>..<011F>, <810110>..<81011F>, <8E810110>..<8E81011F>, one codespacerange per length used, the tail of a longer code is a shorter mapped code; a section may hold codes of several lengths); (c) array targets as a dimension of their own: bfrange <b+1> <b+n> [e_0 .. e_(n-1)] with one entry per code, for every array of n = 1..{} entries over {} entry shapes stated relative to the offset i and a start unit u (<u+i> alone = what an incrementing range from <u> would define; <u+i 0301> several units, the first continues the run; <0066 u+i> several units, the last continues the run; <u> no increment; <2603> unrelated; <D835 DC00+i> surrogate pair), i.e. every mixture of entries that do and do not look like an incrementing range ({} arrays per u): (c1) alone, u in {{<0041>, <00FE>}} x one code length in {{1, 2, 3, 4}}; (c2) arrays of n = 1..{} entries ({} arrays, u = <0041>) x one other definition of the same code length out of {} (covering all, some or none of the array's codes), before and after the array (the last covering definition wins), code length {}; all x every sectioning of the sequence x 2 white-space/EOL styles. Code strings per CMap: every mapped code alone, all mapped codes in one string, and every sequence of 2 and of 3 mapped codes (with repetition, every order, hence every succession of code lengths: equal, increasing, decreasing, long-short-long, ...)", if thorough { "the whole pool of 12" } else { "5 of the pool (bfchar single, bfchar surrogate pair, whole single-unit range, multi-unit range, array range; the thorough tier takes the whole pool)" },
+        ARR_MAX_ALONE, SHAPES, (1..=ARR_MAX_ALONE).map(|n| SHAPES.pow(n as u32)).sum::<usize>(), ARR_MAX_CTX, (1..=ARR_MAX_CTX).map(|n| SHAPES.pow(n as u32)).sum::<usize>(),
+        if thorough { "the whole pool of 12" } else { "the same 5 of the pool" }, if thorough { "in {1, 2, 3, 4}" } else { "2 (the thorough tier takes 1, 2, 3, 4)" });
     let mut rep = Report::new(&bound, true);
     let mut cases: Vec<(Vec<Def>, Vec<usize>)> = vec![];
     for code_len in [2usize, 1, 3, 4] {
@@ -229,6 +302,19 @@ pub fn run(thorough: bool) -> Report {
             for &a in &three { for &b in &three { for &c in &three { cases.push((vec![mp[la][a].clone(), mp[lb][b].clone(), mp[lc][c].clone()], vec![la, lb, lc])); } } }
         }
     } }
+    // (c) array targets: every array of 1..=4 entries over the entry shapes, alone; every array of 1..=3 entries before and
+    // after one other definition that covers some or all of its codes
+    for code_len in [2usize, 1, 3, 4] {
+        for u in ARR_UNITS { for arr in arrays(ARR_MAX_ALONE, u) { cases.push((vec![arr_def(base(code_len), &arr)], vec![code_len])); } }
+    }
+    let ctx_lens: Vec<usize> = if thorough { vec![2, 1, 3, 4] } else { vec![2] };
+    for &code_len in &ctx_lens {
+        let p = pool(code_len);
+        for arr in arrays(ARR_MAX_CTX, ARR_UNITS[0]) {
+            let a = arr_def(base(code_len), &arr);
+            for &k in &three { cases.push((vec![p[k].clone(), a.clone()], vec![code_len; 2])); cases.push((vec![a.clone(), p[k].clone()], vec![code_len; 2])); }
+        }
+    }
     let results: Vec<(usize, Vec<(String, String, Value)>, u64)> = cases.par_iter().enumerate().map(|(i, (defs, lens))| {
         let mut f = vec![]; let mut n = 0;
         for sectioning in 0..(1u32 << (defs.len() - 1)) { for style in 0..2 {
@@ -240,6 +326,7 @@ pub fn run(thorough: bool) -> Report {
     for (_, f, n) in results { rep.evaluations += n; rep.nontrivial += n; for (o, d, inp) in f { rep.fail(&o, d.clone(), inp, d); } }
     rep.sample(String::from_utf8_lossy(&render(&[pool(2)[7].clone(), pool(2)[0].clone(), pool(2)[5].clone()], &[2, 2, 2], 1, 0)).chars().skip(250).take(260).collect());
     rep.sample(String::from_utf8_lossy(&render(&[mp[2][3].clone(), mp[1][0].clone(), mp[3][1].clone()], &[2, 1, 3], 0, 0)).chars().skip(185).take(330).collect());
+    rep.sample(String::from_utf8_lossy(&render(&[arr_def(base(2), &[arr_entry(0, 0x41, 0), arr_entry(1, 0x41, 1), arr_entry(0, 0x41, 2)])], &[2], 0, 0)).chars().skip(250).take(120).collect());
     rep
 }
 
